@@ -264,6 +264,8 @@ func resolveComputedFields(env *Environment, errorSink *validation.ErrorSink) *E
 						// we're accessing a computed field on a different record type
 						updatedContext := *context
 						updatedContext.Record = target
+						// the variables declared by our switch cases are not in scope in that record
+						updatedContext.Variables = nil
 						innerContext = &updatedContext
 					}
 					rewrittenField := self.Rewrite(f, innerContext).(*ComputedField)
